@@ -5,7 +5,7 @@ import ast
 
 from sa.callgraph import CallGraph
 from sa.cfg import CFG, edges_establishing
-from sa.model import AnalysisError, Program, norm, walk_no_nested
+from sa.model import AnalysisError, Program, alpha, norm, walk_no_nested
 from sa.report import Results
 from sa.util import assignments_to, callee, dotted, exc_name
 
@@ -122,7 +122,10 @@ def run(prog: Program) -> Results:
     for st in stores:
         r2.instances += 1
         v = st.value
-        ok = isinstance(v, ast.Tuple) and isinstance(v.elts[0], ast.Call) and callee(v.elts[0]) == "ref" and norm(st.targets[0].slice) in ("expr_id", "id(expr)")
+        sl = st.targets[0].slice
+        key_ok = norm(sl) == f"id({sc.params()[0]})" or (isinstance(sl, ast.Name) and any(
+            isinstance(d, ast.Assign) and norm(d.targets[0]) == sl.id and norm(d.value) == f"id({sc.params()[0]})" for d in ast.walk(sc.node)))
+        ok = isinstance(v, ast.Tuple) and isinstance(v.elts[0], ast.Call) and callee(v.elts[0]) == "ref" and key_ok
         r2.ob(ok, {"store": norm(st)[:70]})
         if not ok:
             res.add("R-C10-2", ("_store_context", "entry shape"), sc.loc(st), "the registry entry is not (weakref(expr), context) keyed by id(expr)")
@@ -140,11 +143,12 @@ def run(prog: Program) -> Results:
         res.unclass(f"_resolve_identifier: only {len(rec_sites)} recursive call sites found (floor 3)")
     for g, c in rec_sites:
         args = [norm(a) for a in c.args] + [norm(k.value) for k in c.keywords]
-        carries = "visited" in args and "inherit_visited" in args
+        vparams = ri.params()[2:4]
+        carries = len(vparams) == 2 and all(v in args for v in vparams)
         gcfg = CFG(g.node)
         node = gcfg.containing(c)
         adds = [n for n in gcfg.nodes if n.ast is not None and isinstance(n.ast, ast.Expr) and isinstance(n.ast.value, ast.Call)
-                and callee(n.ast.value) == "add" and norm(n.ast.value.func.value) in ("visited", "inherit_visited")]
+                and callee(n.ast.value) == "add" and norm(n.ast.value.func.value) in ri.params()[2:4]]
         guarded = False
         for a in adds:
             setname = norm(a.ast.value.func.value)
@@ -153,14 +157,14 @@ def run(prog: Program) -> Results:
             raising = [t for t in tests if any(s.kind == "raise" and exc_name(s.ast.exc) == "ResolutionError" for l, s in t.succ if l is True)]
             if raising and gcfg.all_paths_pass(a, cut_edges=[(t, False) for t in raising]) and gcfg.all_paths_pass(node, cut_nodes=[a]):
                 guarded = True
-        shorter = len(c.args) >= 2 and norm(c.args[1]) == "outer_chain"
+        shorter = len(c.args) >= 2 and g is not ri and len(g.params()) > 2 and norm(c.args[1]) == g.params()[2]
         ok = carries and (guarded or shorter)
         r3.ob(ok, {"site": g.key, "call": norm(c)[:80], "carries_visited": carries, "guarded_insertion": guarded})
         if not carries:
-            res.add("R-C10-3", (g.key, "recursion with fresh visited sets", norm(c)[:80]), g.loc(c),
+            res.add("R-C10-3", (g.key, "recursion with fresh visited sets", alpha(c, ri.node)[:80]), g.loc(c),
                     f"{g.key} re-enters `_resolve_identifier` without passing both visited sets: a reference cycle would recurse until RecursionError")
         elif not (guarded or shorter):
-            res.add("R-C10-3", (g.key, "unguarded recursion", norm(c)[:80]), g.loc(c),
+            res.add("R-C10-3", (g.key, "unguarded recursion", alpha(c, ri.node)[:80]), g.loc(c),
                     f"{g.key}: `{norm(c)[:70]}` is not dominated by a membership-checked insertion into a visited set")
     # re-entry through the property (fresh visited sets)
     cg = CallGraph(prog)
@@ -181,7 +185,7 @@ def run(prog: Program) -> Results:
     for g, n in value_loads:
         r3.instances += 1
         r3.ob(False, {"site": g.key, "re-entry": norm(n)})
-        res.add("R-C10-3", (g.key, "re-entry through Identifier.value", norm(n)), g.loc(n),
+        res.add("R-C10-3", (g.key, "re-entry through Identifier.value", alpha(n, ri.node)), g.loc(n),
                 f"{g.key} evaluates `{norm(n)}` (the Identifier.value property) inside the resolver: resolution restarts with fresh "
                 f"visited sets, so `rec {{ a = b; inherit (a) b; }}` ends in RecursionError instead of ResolutionError")
 
@@ -208,9 +212,12 @@ def run(prog: Program) -> Results:
         r4.instances += 1
         calls = [n for n in fcfg.nodes if n.ast is not None and any(isinstance(c, ast.Call) and callee(c) == "_resolve_identifier" for c in ast.walk(n.ast))]
 
-        def has_ctx(a, truth):
-            return (isinstance(a, ast.Compare) and norm(a) == "context is None" and truth is False) or \
-                   (isinstance(a, ast.Compare) and norm(a) == "context is not None" and truth is True)
+        cvar = next((norm(d.targets[0]) for d in ast.walk(f.node) if isinstance(d, ast.Assign) and isinstance(d.value, ast.Call)
+                     and callee(d.value) == "get_resolution_context"), "context")
+
+        def has_ctx(a, truth, _c=cvar):
+            return (isinstance(a, ast.Compare) and norm(a) == f"{_c} is None" and truth is False) or \
+                   (isinstance(a, ast.Compare) and norm(a) == f"{_c} is not None" and truth is True)
 
         e = edges_establishing(fcfg, has_ctx)
         ok = bool(calls) and bool(e) and all(fcfg.all_paths_pass(c, cut_edges=e) for c in calls)
@@ -284,13 +291,42 @@ def run(prog: Program) -> Results:
                             f"scope where the binding was found: names would be picked up from scopes that do not enclose the "
                             f"binding (dynamic scoping)")
     # producers: scopes_for_owner appends outer -> inner and hands the accumulated chain on
+    acc = None
+    for n in sfo.node.body:
+        if isinstance(n, ast.Return) and isinstance(n.value, ast.Call) and callee(n.value) == "tuple" and n.value.args and isinstance(n.value.args[0], ast.Name):
+            acc = n.value.args[0].id
+    if acc is None:
+        res.unclass("scopes_for_owner: `return tuple(<accumulated chain>)` not found")
+        acc = "scopes"
     seq = []
     for n in ast.walk(sfo.node):
-        if isinstance(n, ast.Call) and isinstance(n.func, ast.Attribute) and norm(n.func.value) == "scopes" and n.func.attr in ("append", "extend"):
-            seq.append((n.lineno, norm(n.args[0])))
-    seq.sort()
-    order = [s for _, s in seq]
-    want_order = ["inherited_scopes", "owner_scopes", "_scope_from_attrset(owner, base=tuple(scopes))", "env_scope", "param_scope"]
+        if isinstance(n, ast.Call) and isinstance(n.func, ast.Attribute) and norm(n.func.value) == acc and n.func.attr in ("append", "extend"):
+            seq.append((n.lineno, n.args[0]))
+    seq.sort(key=lambda x: x[0])
+
+    def origin(e):
+        """what kind of scope is appended: classified by where the value comes from"""
+        t = norm(e)
+        if isinstance(e, ast.Call) and callee(e) == "_scope_from_attrset":
+            return "rec-self"
+        if isinstance(e, ast.Name):
+            defs = [d for d in ast.walk(sfo.node) if isinstance(d, (ast.Assign, ast.AnnAssign)) and norm(d.targets[0] if isinstance(d, ast.Assign) else d.target) == e.id
+                    and getattr(d, "value", None) is not None]
+            txt = " ".join(norm(d.value) for d in defs)
+            if "function_call_scope(" in txt:
+                return "formals"
+            if ".scopes" in txt and "inherited" in txt or "_get_context" in txt:
+                return "inherited"
+            if "_scope_from_attrset(" in txt or "environment" in txt:
+                return "with-env"
+            uses = " ".join(norm(x) for x in ast.walk(sfo.node) if isinstance(x, ast.Call) and isinstance(x.func, ast.Attribute)
+                            and norm(x.func.value) == e.id and x.func.attr == "append")
+            if "_as_scope(" in uses or "layer" in uses:
+                return "own-layers"
+        return "?" + t[:30]
+
+    order = [origin(e) for _, e in seq]
+    want_order = ["inherited", "own-layers", "rec-self", "with-env", "formals"]
     r5.instances += 1
     ok = order == want_order
     r5.ob(ok, {"scopes_for_owner_appends": order})
@@ -301,7 +337,7 @@ def run(prog: Program) -> Results:
         if isinstance(c, ast.Call) and callee(c) == "function_call_scope":
             r5.instances += 1
             a = _kw(c, "inherited_scopes", 1)
-            ok = a is not None and norm(a) == "tuple(scopes)"
+            ok = a is not None and norm(a) == f"tuple({acc})"
             r5.ob(ok, {"function_call_scope.inherited_scopes": norm(a) if a is not None else None})
             if not ok:
                 res.add("R-C10-5", ("scopes_for_owner", "parameter scope base"), sfo.loc(c),
@@ -310,15 +346,17 @@ def run(prog: Program) -> Results:
         if isinstance(c, ast.Call) and callee(c) == "_scope_from_attrset":
             r5.instances += 1
             a = _kw(c, "base")
-            ok = a is not None and norm(a) == "tuple(scopes)"
+            ok = a is not None and norm(a) == f"tuple({acc})"
             r5.ob(ok, {"_scope_from_attrset.base": norm(a) if a is not None else None})
             if not ok:
-                res.add("R-C10-5", ("scopes_for_owner", "attrset scope base", norm(c)[:50]), sfo.loc(c),
+                res.add("R-C10-5", ("scopes_for_owner", "attrset scope base", alpha(c, sfo.node)[:50]), sfo.loc(c),
                         f"`{norm(c)[:60]}` is not based on the accumulated chain tuple(scopes)")
     gi = prog.func("AttributeSet.__getitem__")
     r5.instances += 1
-    ctx = [d for d in ast.walk(gi.node) if isinstance(d, ast.Assign) and norm(d.targets[0]) == "context_scopes"]
-    ok = bool(ctx) and norm(ctx[0].value) == "tuple(list(scopes_for_owner(self)) + [self_scope])"
+    ctx = [d for d in ast.walk(gi.node) if isinstance(d, ast.Assign) and "scopes_for_owner(self)" in norm(d.value)]
+    ok = bool(ctx) and alpha(ctx[0].value, gi.node) == "tuple(list(scopes_for_owner(self)) + [$1])" and any(
+        isinstance(d, ast.Assign) and norm(d.targets[0]) == norm(ctx[0].value.args[0].right.elts[0]) and norm(d.value).startswith("Scope(self.values")
+        for d in ast.walk(gi.node))
     r5.ob(ok, {"AttributeSet.__getitem__ inherit arm": norm(ctx[0].value) if ctx else None})
     if not ok:
         res.add("R-C10-5", ("AttributeSet.__getitem__", "inherit chain"), gi.loc(ctx[0] if ctx else None),
